@@ -66,6 +66,7 @@ func runUnrolled(cfg *Config) *Report {
 			xArg = abstractList(r, groundElems(r, n), 1)
 		}
 		kind := r.Intn(9)
+		twoStates := r.Intn(2) == 0 // kinds 1, 2: the unrolled goal VALUE runs on two states with different variable counters
 		if cfg.Only >= 0 && cfg.Only != i {
 			cf.add("CReifyS TNil []")
 			rep.CaseDesc = append(rep.CaseDesc, "")
@@ -186,6 +187,19 @@ func runUnrolled(cfg *Config) *Report {
 			}
 			model = fmt.Sprintf("(GFresh (GFresh (GConj (GEq (PB 2) (PPair (PB 1) (PPair (PB 0) PNil))) (GConj (mapo_unrolled %s %s (PB 1)) (mapo_unrolled %s %s (PB 0))))))",
 				coqFcall(f1), coqList(carsCoq), coqFcall(f2), coqList(carsCoq))
+		}
+		if twoStates && (kind == 1 || kind == 2) {
+			// g := <the unrolled goal>; conj(disj(succeed, fresh(succeed)), g): one goal value, run on the two answer states of the
+			// disjunction (the second has one variable more); both runs answer as the recursive relation does, and independently
+			desc = "g := " + desc + "; conj(disj(succeed, fresh _: succeed), g)"
+			wrap := func(inner func(q *ast.SExpr) micro.Goal) func(q *ast.SExpr) micro.Goal {
+				return func(q *ast.SExpr) micro.Goal {
+					g := inner(q)
+					return micro.Conj(micro.Disj(micro.SuccessO, micro.CallFresh(func(*ast.SExpr) micro.Goal { return micro.SuccessO })), g)
+				}
+			}
+			real, rec = wrap(real), wrap(rec)
+			model = "(GConj (GDisj GSucc (GFresh GSucc)) " + model + ")"
 		}
 		begin(i, desc)
 		got, want := runAll(real), runAll(rec)
